@@ -53,10 +53,10 @@ class NumberParameter(Parameter):
 
         try:
             return int(value)
-        except ValueError:
+        except (ValueError, TypeError):
             try:
                 return float(value)
-            except ValueError:
+            except (ValueError, TypeError):
                 raise ParameterNotValid(value, "Number", lineno)
 
     @staticmethod
